@@ -14,6 +14,9 @@ Mirrors, statement by statement where it matters:
   front is the issuing service itself is delivered in place through that service's
   `ClientSessions.PushMsg` with the serialized message;
 * `node/builtin/system.go` `Entry.PushMsg` = `ClientSessions.PushMsg` + one callback.
+* retained `*Channel` handles (section "retained channel handles" below): `DeleteChannel` only unbinds the
+  name, the object keeps its groups for whoever holds the pointer; `c.Add / c.Leave / c.PushMessage` on a
+  bound or stale handle; `FreeTempChannel(c)` = `DeleteChannel(c.GetName())`.
 
 Core Lean only (linked into `modeld_c16`).  Maps are association lists: `aset`
 replaces in place or appends (a `Store`), `adel` removes every entry of the key
@@ -159,9 +162,15 @@ structure St where
   localFront : String       -- name of the service that owns the channel service (`ns.Name`)
   svc : Svc
   front : Front
+  /-- the issuing service has no "sessions" component (a back-end service): `pushLocal` declines
+  (`sc == nil`) and `PushMessageByIds` goes on to the directory, also for its own name -/
+  noSessions : Bool := false
   deriving Repr, DecidableEq
 
-def init (localFront : String) : St := ⟨localFront, ⟨[], 0⟩, ⟨[], 1, []⟩⟩
+def init (localFront : String) : St := { localFront := localFront, svc := ⟨[], 0⟩, front := ⟨[], 1, []⟩ }
+
+/-- the same, for a service without a "sessions" component -/
+def initBackend (localFront : String) : St := { init localFront with noSessions := true }
 
 inductive Op
   | addch (c : String)
@@ -188,7 +197,8 @@ inductive Obs
 
 /-- deliveries caused in place by the push tuples addressed to the issuing service itself -/
 def localDeliveries (ser : String → List Nat) (s : St) (ps : List Push) : List Delivery :=
-  ps.flatMap fun p => if p.front = s.localFront then pushMsg s.front.reachable p.ids p.route (ser p.msg) else []
+  if s.noSessions then []
+  else ps.flatMap fun p => if p.front = s.localFront then pushMsg s.front.reachable p.ids p.route (ser p.msg) else []
 
 /-- `ser` is the client serializer (`config.GetConfig().Serializer.Marshal`) -/
 def step (ser : String → List Nat) (s : St) : Op → St × Obs
@@ -220,6 +230,12 @@ knows (`pushLocal` declines because `serverId != ns.Name`; an unknown service is
 and dropped) -/
 def forwarded (me : String) (dir : List String) (ps : List Push) : List Push :=
   ps.filter fun p => decide (p.front ≠ me) && decide (p.front ∈ dir)
+
+/-- the same for an issuing service in the state `s`: one without a "sessions" component
+declines in `pushLocal` for its own name too, so a tuple addressed to itself is sent onward
+(to itself) like any other, provided the directory knows it -/
+def forwardedFrom (s : St) (dir : List String) (ps : List Push) : List Push :=
+  ps.filter fun p => (decide (p.front ≠ s.localFront) || s.noSessions) && decide (p.front ∈ dir)
 
 /-- what the connections of the front-end service `b` (own `ClientSessions`, live set
 `blive`) receive when each forwarded request is handled by `sys.pushmsg` of the service it
@@ -280,5 +296,128 @@ def targets (c f : String) : Op → Prop
   | .leave c' f' _ => c' = c ∧ f' = f
   | .delch c' => c' = c
   | _ => False
+
+/-! ### retained channel handles
+
+The Go API hands out `*Channel` (`AddChannel`, `AddToChannel`, `AllocTempChannel` all
+return it), and `DeleteChannel` only removes the name from the `sync.Map`: the object
+lives on for whoever kept the pointer — it keeps its groups, `c.Add` / `c.Leave` /
+`c.PushMessage` still work on it, and the name may meanwhile denote a different
+object.  `FreeTempChannel(c)` is `DeleteChannel(c.GetName())`: it removes whatever
+object the name denotes *now*.
+
+`HSt` adds to `St` the objects that left the map (`detached`, newest first, each with
+the name it was created under).  A handle is the identity `uid` of the object; the
+pointer operations mutate the object with that identity wherever it sits. -/
+
+structure HSt where
+  st : St
+  detached : AL Chan := []
+  deriving Repr, DecidableEq
+
+def hinit (localFront : String) : HSt := { st := init localFront, detached := [] }
+
+inductive HOp
+  | name (op : Op)                                   -- an operation of `channel.Service`, by name
+  | hjoin (u : Nat) (f : String) (x : Nat)           -- `c.Add(f, x)` on the retained handle `u`
+  | hleave (u : Nat) (f : String) (x : Nat)          -- `c.Leave(f, x)`
+  | hbcast (u : Nat) (route msg : String)            -- `c.PushMessage(route, msg)`
+  | hfree (u : Nat)                                  -- `Service.FreeTempChannel(c)` = `DeleteChannel(c.GetName())`
+  deriving Repr, DecidableEq
+
+/-- mutate, in place, the object with identity `u` -/
+def updObj (m : AL Chan) (u : Nat) (g : Chan → Chan) : AL Chan :=
+  m.map fun e => if e.2.uid = u then (e.1, g e.2) else e
+
+/-- the object with identity `u` and the name it was created under -/
+def findUid (m : AL Chan) (u : Nat) : Option (String × Chan) := m.find? fun e => e.2.uid == u
+
+/-- what `DeleteChannel` leaves behind: the object that `name` denoted, still intact -/
+def detachOf (s : HSt) : Op → AL Chan
+  | .delch c =>
+    match s.st.svc.getChannel c with
+    | some ch => (c, ch) :: s.detached
+    | none => s.detached
+  | _ => s.detached
+
+def hname (ser : String → List Nat) (s : HSt) (op : Op) : HSt × Obs :=
+  let r := step ser s.st op
+  ({ st := r.1, detached := detachOf s op }, r.2)
+
+def HSt.updObj (s : HSt) (u : Nat) (g : Chan → Chan) : HSt :=
+  { st := { s.st with svc := { s.st.svc with chans := Channel.updObj s.st.svc.chans u g } },
+    detached := Channel.updObj s.detached u g }
+
+/-- the object a handle refers to: in the map or detached -/
+def HSt.findObj (s : HSt) (u : Nat) : Option (String × Chan) := findUid (s.st.svc.chans ++ s.detached) u
+
+def hstep (ser : String → List Nat) (s : HSt) : HOp → HSt × Obs
+  | .name op => hname ser s op
+  | .hjoin u f x => (s.updObj u (·.add f x), .ok)
+  | .hleave u f x => (s.updObj u (·.leave f x), .ok)
+  | .hbcast u route msg =>
+    (s, match s.findObj u with
+        | none => .nil
+        | some e => .pushes (e.2.pushMessage route msg) (localDeliveries ser s.st (e.2.pushMessage route msg)))
+  | .hfree u =>
+    match s.findObj u with
+    | none => (s, .ok)
+    | some e => hname ser s (.delch e.1)
+
+def hrun (ser : String → List Nat) (s : HSt) (ops : List HOp) : HSt :=
+  ops.foldl (fun s op => (hstep ser s op).1) s
+
+/-- what a detached object holds for the front `f` -/
+def detView (s : HSt) (u : Nat) (f : String) : Option (List Nat) :=
+  (findUid s.detached u).bind fun e => aget e.2.groups f
+
+/-- the member list of one front of a retained object as a fold over the later history:
+only `c.Add` / `c.Leave` through that very handle change it -/
+def stepStale (u : Nat) (f : String) (v : Option (List Nat)) : HOp → Option (List Nat)
+  | .hjoin u' f' x => if u' = u ∧ f' = f then some (v.getD [] ++ [x]) else v
+  | .hleave u' f' x => if u' = u ∧ f' = f then v.map (·.erase x) else v
+  | _ => v
+
+/-- the by-name operation a handle operation amounts to while the object is still the one
+the name `c` denotes -/
+def asNameOp (c : String) : HOp → Op
+  | .name op => op
+  | .hjoin _ f x => .join c f x
+  | .hleave _ f x => .leave c f x
+  | .hbcast _ r m => .bcast c r m
+  | .hfree _ => .delch c
+
+/-! ### every object, bound or not: what it holds as a fold of the operations that resolved to it -/
+
+/-- what the object with identity `u` (bound to a name or detached) holds for the front `f` -/
+def objView (s : HSt) (u : Nat) (f : String) : Option (List Nat) := (s.findObj u).bind fun e => aget e.2.groups f
+
+/-- a membership operation resolved to the object it acts on -/
+structure Tgt where
+  obj : Nat
+  front : String
+  isJoin : Bool
+  id : Nat
+  deriving Repr, DecidableEq
+
+/-- the object a membership operation acts on in the state `s`: `AddToChannel(c, ..)` on the object
+`AddChannel(c)` returns (the bound one, or the fresh one it creates), `LeaveFromChannel(c, ..)` on the
+object `c` denotes if any, `h.Add` / `h.Leave` on the object of the handle (if it was handed out) -/
+def targetOf (s : HSt) : HOp → Option Tgt
+  | .name (.join c f x) => some ⟨(s.st.svc.addChannel c).2.uid, f, true, x⟩
+  | .name (.leave c f x) => (s.st.svc.getChannel c).map fun ch => ⟨ch.uid, f, false, x⟩
+  | .hjoin u f x => if (s.findObj u).isSome then some ⟨u, f, true, x⟩ else none
+  | .hleave u f x => if (s.findObj u).isSome then some ⟨u, f, false, x⟩ else none
+  | _ => none
+
+def applyT (u : Nat) (f : String) (v : Option (List Nat)) : Option Tgt → Option (List Nat)
+  | some t =>
+    if t.obj = u ∧ t.front = f then (if t.isJoin then some (v.getD [] ++ [t.id]) else v.map (·.erase t.id)) else v
+  | none => v
+
+/-- the resolved membership operations of a history, in order -/
+def otrace (ser : String → List Nat) (s : HSt) : List HOp → List (Option Tgt)
+  | [] => []
+  | op :: ops => targetOf s op :: otrace ser (hstep ser s op).1 ops
 
 end Cell2v.Channel
